@@ -97,18 +97,44 @@ func cdRoundTrip(num uint16, data []byte) (string, string) {
 	}
 
 	// the same through a reused ChannelData value whose buffer still holds an earlier, longer message
-	return cdRoundTripWith(num, data, true)
+	if k, m := cdRoundTripWith(num, data, true); k != "" {
+		return k, m
+	}
+	// ... and through a value whose buffer has a small capacity left over (a value that failed to
+	// decode a runt packet of 1-3 bytes and is used for sending next)
+	for _, capLeft := range []int{1, 2, 3, 4, 5, 7, 8} {
+		if k, m := cdRoundTripCap(num, data, capLeft); k != "" {
+			return k, fmt.Sprintf("%s (value reused with a %d-byte buffer)", m, capLeft)
+		}
+	}
+
+	return "", ""
+}
+
+func cdRoundTripCap(num uint16, data []byte, capLeft int) (string, string) {
+	return cdRoundTripPrepared(num, data, func(cd *proto.ChannelData) {
+		cd.Raw = make([]byte, capLeft)
+		_ = cd.Decode() // a runt: fails, the value keeps its buffer
+		cd.Reset()
+		cd.Number, cd.Data = proto.ChannelNumber(num), data
+	})
 }
 
 func cdRoundTripWith(num uint16, data []byte, reuse bool) (string, string) {
+	return cdRoundTripPrepared(num, data, func(cd *proto.ChannelData) {
+		if reuse {
+			cd.Number, cd.Data = 0x7ABC, bytes.Repeat([]byte{0xAB}, len(data)+13)
+			cd.Encode()
+			cd.Reset()
+			cd.Number, cd.Data = proto.ChannelNumber(num), data
+		}
+	})
+}
+
+func cdRoundTripPrepared(num uint16, data []byte, prepare func(*proto.ChannelData)) (string, string) {
 	// library encode → reference decode
 	cd := proto.ChannelData{Number: proto.ChannelNumber(num), Data: data}
-	if reuse {
-		cd.Number, cd.Data = 0x7ABC, bytes.Repeat([]byte{0xAB}, len(data)+13)
-		cd.Encode()
-		cd.Reset()
-		cd.Number, cd.Data = proto.ChannelNumber(num), data
-	}
+	prepare(&cd)
 	cd.Encode()
 	raw := cd.Raw
 	if len(raw)%4 != 0 {
